@@ -191,3 +191,30 @@ package server
 //@     invariant muState == 0 && s.AssemblerCreatorFunc != nil && liveCount == atomicval(s.activeConnectionCount)
 //@     invariant[C17.accounting] accepted - old(accepted) == (closes - old(closes)) + (spawned - old(spawned))
 //@     invariant[C17.accounting] tracks - old(tracks) == spawned - old(spawned) && untracks == old(untracks)
+
+// ---------------------------------------------------------------------------------------------
+// Shutdown (C17, sequential conjunct): nil is returned only after a whole pass over the tracked connections in which
+// none was being handled; every connection found idle in a pass is closed and untracked
+
+//@ iface context.Context.Err() (err error)
+//@   modifies nothing
+//@   ensures err != nil
+//@   ghostset ctxErrCalls := old(ctxErrCalls) + 1
+
+//@ func (s *Server) Shutdown(ctx context.Context) (err error)
+//@   requires s != nil && ctx != nil && s.listener != nil && muState == 0
+//@   lockdiscipline[C17]
+//@   guarded[C17] listener, activeConnections
+//@   modifies s.isShutdown, s.activeConnections, closes, ctxErrCalls, atomicTrueLoads, faults, timerNs, timers
+//@   ensures[C17.shutdown] muState == 0 && atomicval(s.isShutdown)
+//@   ensures[C17.shutdown] ctxErrCalls == old(ctxErrCalls) ==> atomicTrueLoads == passStart
+//@   ensures[C17.shutdown] ctxErrCalls != old(ctxErrCalls) ==> err != nil
+//@   loop 0
+//@     modifies s.activeConnections, closes, atomicTrueLoads, faults
+//@     invariant muState == 2 && ctxErrCalls == old(ctxErrCalls) && atomicval(s.isShutdown)
+//@   loop 1
+//@     ghost passStart := atomicTrueLoads
+//@     modifies s.activeConnections, closes, atomicTrueLoads
+//@     invariant muState == 2 && ctxErrCalls == old(ctxErrCalls) && atomicval(s.isShutdown)
+//@     invariant allIdle <==> atomicTrueLoads == passStart
+//@     invariant atomicTrueLoads >= passStart
